@@ -656,3 +656,64 @@ def c_dist_builder(c, kinds, zeros):
             want = want & ~inside(lo, hi)
     c.check("hard formula of a dist: x inside some listed entry AND outside every zero-weight entry (R-EXPR)",
             And(n.width == 1, n.term == want))
+
+
+def uvec_cases(tier, seed):
+    out = []
+    for nv in (2, 3):
+        for sz in (0, 1, 2, 3):
+            for ws in ((8, 8, 8), (4, 9, 33)):
+                for sg in ((False,) * 3, (True,) * 3, (True, False, True)):
+                    out.append((nv, sz, list(ws[:nv]), list(sg[:nv])))
+    return out
+
+
+@contract("constraint_unique_vec.build", ["C01", "C04"],
+          ["vsc.model.constraint_unique_vec_model.ConstraintUniqueVecModel.build",
+           "vsc.model.constraint_unique_vec_model.ConstraintUniqueVecModel._mkVecNotEq"], uvec_cases, replay="none",
+          note="unique_vec over 2..3 lists of 0..3 elements, element widths/signs per list; compared with R-EXPR: for every pair of "
+               "lists, some position differs")
+def c_unique_vec(c, nv, sz, ws, sg):
+    from vsc.model.constraint_unique_vec_model import ConstraintUniqueVecModel
+    from vsc.model.field_array_model import FieldArrayModel
+    from vsc.model.field_composite_model import FieldCompositeModel
+    from vsc.model.expr_fieldref_model import ExprFieldRefModel
+    bt = GhostBoolector()
+    root = FieldCompositeModel("o", True)
+    arrs = []
+    for k in range(nv):
+        class T:
+            width = ws[k]
+        a = root.add_field(FieldArrayModel("l%d" % k, T(), True, None, ws[k], sg[k], True, False))
+        for _ in range(sz):
+            a.add_field()
+        arrs.append(a)
+    root.set_used_rand(True, 0)
+    for a in arrs:
+        for f in a.field_l:
+            f.build(bt)
+    st = ConstraintUniqueVecModel([ExprFieldRefModel(a) for a in arrs])
+    n = st.build(bt, False)
+    if sz == 0:
+        # nothing to compare: the property speaks of the elements the list exposes, and there are none
+        c.check("unique_vec over empty lists contributes no node", n is None, info="node=%r" % (n,))
+        return
+    want = z3.BitVecVal(1, 1)
+    for i in range(nv):
+        for j in range(i + 1, nv):
+            W = max(ws[i], ws[j])
+            ne = z3.BitVecVal(0, 1)
+            for p in range(sz):
+                ne = ne | ref_bin("Ne", arrs[i].field_l[p].var.term, arrs[j].field_l[p].var.term, sg[i] and sg[j], W)
+            want = want & ne
+    c.check("unique_vec == for every pair of lists some position differs (R-EXPR !=)", And(n.width == 1, n.term == want))
+    odd = root.add_field(FieldArrayModel("odd", None, True, None, 8, False, True, False))
+    for _ in range(sz + 1):
+        odd.add_field().build(bt)
+    try:
+        ConstraintUniqueVecModel([ExprFieldRefModel(arrs[0]), ExprFieldRefModel(odd)]).build(bt, False)
+        c.check("lists of different length are rejected, never silently truncated", False)
+    except GhostBtorError:
+        raise
+    except Exception:
+        c.check("lists of different length are rejected, never silently truncated", True)
